@@ -875,6 +875,9 @@ func detWorker(p *Prop, tier string) int {
 			sig = v.Sig()
 		}
 		fmt.Printf("DET %d %016x draws=%d events=%d %s\n", s, h.Sum64(), len(c.Src.Rec), len(c.Events), sig)
+		if os.Getenv("VERIF_DET_DUMP") == fmt.Sprint(s) {
+			fmt.Printf("DUMP %d %s\n", s, strings.Join(c.Events, " "))
+		}
 	}
 	return 0
 }
